@@ -165,8 +165,8 @@ class C08:
                 s, obs, ia = self.script([], only_probe=k)
                 r = get_ex("asan", 10).run(s)
                 t = by_index(r.trace)
-                e = t[obs[0][1]]
-                out.append((e["rc"], [(f, l) for f, l, m in unhex_diag(e)]))
+                e = t.get(obs[0][1])
+                out.append((e["rc"], [(f, l) for f, l, m in unhex_diag(e)]) if e is not None else ("died", []))
             C08._alone = out
         return C08._alone
 
